@@ -102,6 +102,12 @@ def make_frame(rng, saturated=False):
                 if m[g.index].all():
                     m[g.index[0]] = 0
         df.loc[m == 1, 'Y'] = np.nan
+    wunit = 1.0
+    if weights and rng.random() < 0.5:
+        # the unit of a weights column is arbitrary (normalised to sum to one, sampling fractions per million, ...):
+        # every estimating equation is homogeneous in it
+        wunit = rng.choice([1e-6, 1.0 / float(df['wt'].sum()), 1e3])
+        df['wt'] = df['wt'] * wunit
     idx = rng.choice(['range', 'shift', 'shuffle'])
     if idx == 'shift':
         df.index = range(300, 300 + n)
@@ -110,7 +116,7 @@ def make_frame(rng, saturated=False):
         rng.shuffle(ix)
         df.index = ix
     meta = {'n': n, 'covs': covs, 'emodel': emodel, 'outcome': outcome, 'weights': weights, 'missing': missing,
-            'saturated': saturated, 'index': idx, 'mmodel': 'A + ' + covs[0]}
+            'saturated': saturated, 'index': idx, 'mmodel': 'A + ' + covs[0], 'wunit': wunit}
     return df, meta
 
 
@@ -387,6 +393,7 @@ def check_cases(ctx, fails, cases, plan):
         ctx.count('snm:%d-param%s' % (dim, '' if has_main(f) else ' (product term only)'))
         ctx.count('outcome:' + meta['outcome'])
         ctx.count('weights:%s' % meta['weights'])
+        ctx.count('weights unit:%g' % meta.get('wunit', 1.0))
         ctx.count('missing:%s' % meta['missing'])
         ctx.count('exposure-model:' + ('saturated' if meta['saturated'] else 'parametric'))
         pay = payload_of(df, meta, f, {'steps': [list(st) for st in steps]} if steps else None)
